@@ -68,7 +68,32 @@ impl ProjCase {
     }
 
     pub fn run(&self) -> Result<imp::Outcome, String> {
-        imp::run_project(&self.files())
+        let files = self.files();
+        // a key that some file imports but no file defines: let a "ghost" file define it for a
+        // while and then lose its tree; the final contents are unchanged, so are the expectations
+        let mut undefined: Vec<&Vec<String>> = Vec::new();
+        for f in &self.project.files {
+            for im in &f.imports {
+                let k = im.join(".");
+                if !self.keys.contains_key(&k) && !k.starts_with("android.") && !k.starts_with("java.") {
+                    undefined.push(im);
+                }
+            }
+        }
+        let mut key = Vec::new();
+        for (_, t) in &files {
+            key.extend_from_slice(t.as_bytes());
+        }
+        let h = crate::src::fnv1a(&key);
+        if !undefined.is_empty() && h % 3 == 0 {
+            let im = undefined[(h >> 8) as usize % undefined.len()];
+            let kind = ["parcelable", "interface", "enum"][(h >> 16) as usize % 3];
+            let body = if kind == "enum" { "A" } else { "" };
+            let first = format!("package {}; {} {} {{ {} }}", im[..im.len() - 1].join("."), kind, im[im.len() - 1], body);
+            let last = ["package a; interface {", "<<<<<<< HEAD", "", "interface X {}"][(h >> 24) as usize % 4];
+            return imp::run_project_with_ghost(&files, &first, last);
+        }
+        imp::run_project_with_history(&files)
     }
 
     /// reference validation of file i (Err = don't-care corner)
